@@ -769,7 +769,7 @@ func checkSign(c signCase) error {
 	}
 	key, priv := signKey()
 	_, mut := mutableShape(c.Recs[0])
-	pbt.Note([]byte(snap(rrset)), mut || len(rrset) > 1, append(hand, "type:"+typeName(c.Recs[0].Type), fmt.Sprintf("rrset=%d", len(rrset)))...)
+	pbt.Note([]byte(snap(rrset)), mut || len(rrset) > 1 || len(rdataNames(&c.Recs[0])) > 0, append(append(hand, canonClasses(c.Recs)...), "type:"+typeName(c.Recs[0].Type), fmt.Sprintf("rrset=%d", len(rrset)))...)
 	// the signer name is written the way a zone file might spell it (mixed case): Verify must not "tidy" it
 	signer := "eXamPle."
 	if len(c.Recs)%2 == 0 {
@@ -777,39 +777,54 @@ func checkSign(c signCase) error {
 	}
 	sig := &dns.RRSIG{Hdr: dns.RR_Header{Name: rrset[0].Header().Name, Rrtype: dns.TypeRRSIG, Class: rrset[0].Header().Class, Ttl: 300},
 		Algorithm: dns.ED25519, SignerName: signer, KeyTag: key.KeyTag(), Inception: 1700000000, Expiration: 1800000000}
-	before, kbefore := snap(rrset), snap(key)
-	if err := sig.Sign(priv, rrset); err != nil {
-		return nil // not signable (e.g. class mismatch with the key); nothing to observe
+	res, err := signVerifyReadOnly(sig, key, priv, rrset, rrset)
+	pbt.Class("result:" + res)
+	return err
+}
+
+// signVerifyReadOnly signs signSet with sig and verifies set (the same RRset, or another the
+// signature is good for) against the result, each call bracketed by snapshots of everything it was
+// handed. A Sign that gives up (a record that does not pack, a class the key is not for) has to
+// leave the RRset alone as well. res says how far it got.
+func signVerifyReadOnly(sig *dns.RRSIG, key *dns.DNSKEY, priv crypto.Signer, signSet, set []dns.RR) (res string, err error) {
+	signer := sig.SignerName
+	before, kbefore, sgbefore := snap(set), snap(key), snap(signSet)
+	serr := sig.Sign(priv, signSet)
+	if after := snap(signSet); after != sgbefore {
+		return "", pbt.Errf("RRSIG.Sign changed the RRset: %s", diffAt(after, sgbefore))
 	}
-	if after := snap(rrset); after != before {
-		return pbt.Errf("RRSIG.Sign changed the RRset: %s", diffAt(after, before))
+	if after := snap(set); after != before {
+		return "", pbt.Errf("RRSIG.Sign changed the RRset: %s", diffAt(after, before))
+	}
+	if serr != nil {
+		return "not-signable", nil // (e.g. a record the packer refuses); nothing more to observe
 	}
 	sbefore := snap(sig)
-	err := sig.Verify(key, rrset)
-	if after := snap(rrset); after != before {
-		return pbt.Errf("RRSIG.Verify changed the RRset: %s", diffAt(after, before))
+	err = sig.Verify(key, set)
+	if after := snap(set); after != before {
+		return "", pbt.Errf("RRSIG.Verify changed the RRset: %s", diffAt(after, before))
 	}
 	if after := snap(key); after != kbefore {
-		return pbt.Errf("RRSIG.Verify changed the key: %s", diffAt(after, kbefore))
+		return "", pbt.Errf("RRSIG.Verify changed the key: %s", diffAt(after, kbefore))
 	}
 	if after := snap(sig); after != sbefore {
-		return pbt.Errf("RRSIG.Verify changed the RRSIG: %s", diffAt(after, sbefore))
+		return "", pbt.Errf("RRSIG.Verify changed the RRSIG: %s", diffAt(after, sbefore))
 	}
 	if err != nil {
-		return pbt.Errf("RRSIG.Verify of a signature just made (signer name %q, key owner %q) failed: %v", signer, key.Hdr.Name, err)
+		return "", pbt.Errf("RRSIG.Verify of a signature just made (signer name %q, key owner %q) failed: %v", signer, key.Hdr.Name, err)
 	}
 	// a failing Verify (other key tag) is read-only too
 	bad := *sig
 	bad.KeyTag++
 	bbefore := snap(&bad)
-	_ = bad.Verify(key, rrset)
+	_ = bad.Verify(key, set)
 	if after := snap(&bad); after != bbefore {
-		return pbt.Errf("a failing RRSIG.Verify changed the RRSIG: %s", diffAt(after, bbefore))
+		return "", pbt.Errf("a failing RRSIG.Verify changed the RRSIG: %s", diffAt(after, bbefore))
 	}
-	if after := snap(rrset); after != before {
-		return pbt.Errf("a failing RRSIG.Verify changed the RRset: %s", diffAt(after, before))
+	if after := snap(set); after != before {
+		return "", pbt.Errf("a failing RRSIG.Verify changed the RRset: %s", diffAt(after, before))
 	}
-	return nil
+	return "verified", nil
 }
 
 func genSign(t *rapid.T) signCase {
@@ -843,6 +858,11 @@ func genSign(t *rapid.T) signCase {
 			}
 		}
 	}
+	// canonicalisation has most to do where the RDATA holds domain names: one RRset in three is of
+	// such a type (the list is read off the layout table)
+	if nts := nameTypesOf(types); hand == 0 && len(nts) > 0 && rapid.IntRange(0, 2).Draw(t, "nametype") == 0 {
+		typ = rapid.SampledFrom(nts).Draw(t, "ntype")
+	}
 	n := rapid.IntRange(1, 3).Draw(t, "n")
 	o := &gen.Opts{}
 	var recs []wm.Rec
@@ -851,6 +871,8 @@ func genSign(t *rapid.T) signCase {
 		r.Name, r.Class = owner, 1
 		recs = append(recs, r)
 	}
+	// where the set stands with respect to each step of RFC 4034 6.2 (see canonPlan)
+	canonPlan(t, recs)
 	return signCase{Recs: recs, Hand: hand}
 }
 
@@ -860,5 +882,5 @@ func init() {
 	pbt.Register(pbt.Sub[msgCase]{Name: "copy-message", Weight: 4, Gen: genMsg, Check: checkCopyMsg})
 	pbt.Register(pbt.Sub[msgCase]{Name: "unpack-aliases-no-buffer", Weight: 6, Gen: genMsg, Check: checkUnpack})
 	pbt.Register(pbt.Sub[msgCase]{Name: "read-only-operations", Weight: 4, Gen: genMsg, Check: checkReadOnly})
-	pbt.Register(pbt.Sub[signCase]{Name: "sign-verify-read-only", Weight: 3, Gen: genSign, Check: checkSign})
+	pbt.Register(pbt.Sub[signCase]{Name: "sign-verify-read-only", Weight: 6, Gen: genSign, Check: checkSign})
 }
